@@ -274,7 +274,7 @@ func drawConc(r *vlib.Run, rng *rand.Rand) concParams {
 	p := concParams{P: 1 + rng.Intn(8), Items: 2 + rng.Intn(19)}
 	maxIns := r.N(600, 2000)
 	p.Inserts = 50 + rng.Intn(maxIns-49)
-	p.Phases = []int{1, 1, 2, 3, 5, 10, 20}[rng.Intn(7)]
+	p.Phases = []int{1, 1, 2, 3, 5, 10, 20, 50, 200}[rng.Intn(9)]
 	p.End = endModes[rng.Intn(len(endModes))]
 	p.Procs = []int{1, 2, 3, 4, 8, 16}[rng.Intn(6)]
 	p.Perturb = rng.Intn(4) > 0
@@ -287,7 +287,7 @@ func drawConc(r *vlib.Run, rng *rand.Rand) concParams {
 }
 
 func concurrent(r *vlib.Run) {
-	n := r.N(320, 20000)
+	n := r.N(2000, 40000)
 	if r.Race {
 		n /= 10
 	}
@@ -297,6 +297,11 @@ func concurrent(r *vlib.Run) {
 			return
 		}
 		concTrial(r, trial, rng)
+		// Replay of a concurrent trial: same workload, repeated until the
+		// violation recurs (schedules are not reproducible).
+		for k := 0; r.OnlyTrial >= 0 && k < 300 && r.NViolations() == 0; k++ {
+			concTrial(r, trial, r.Rand("concurrent", trial))
+		}
 	})
 }
 
